@@ -120,6 +120,20 @@ func init() {
 			}
 			return nil
 		},
+		"vOrderLight": func(m *Machine, fr *frame, fn *ssa.Function, a []value) value {
+			m.OrderMode = a[0].(bool)
+			m.orderLight = a[0].(bool)
+			m.orderBudget = m.cfg.OrderBudget
+			if m.orderBudget == 0 {
+				m.orderBudget = 1
+			}
+			return nil
+		},
+		"vOrderGlobal": func(m *Machine, fr *frame, fn *ssa.Function, a []value) value {
+			m.orderGlobal = concInt(a[0], "vOrderGlobal")
+			m.OrderMode = m.orderGlobal != 0
+			return nil
+		},
 		"vIsNative": func(m *Machine, fr *frame, fn *ssa.Function, a []value) value { return false },
 		"vSetTokens": func(m *Machine, fr *frame, fn *ssa.Function, a []value) value {
 			var toks []string
